@@ -6,6 +6,10 @@ import json, sys, os, glob
 TECH = "bounded symbolic execution of the real code's go/ssa by /verif/engine (gosym), assertions decided by z3 over all values within the stated bounds; counterexamples replayed natively"
 
 CHECKS = {
+ "C02": dict(
+  text="Solver-decided, bounded: for every well-formed current state and every candidate within 13 shape variants (all leaves symbolic, amounts unbounded integers) the real StateMachine.Update accepts only candidates satisfying an independent reference predicate written from the property text, never panics, and leaves phase/staging/current untouched and refuses to sign when it refuses; same for Init and CheckUpdate; Allocation.Valid is exact at the 1024/1025 limits.",
+  note="Trusted: go/ssa lowering, interpreter (translator-validated per run), z3 (linear integer arithmetic for the sums); the reference predicate of DESIGN.md Appendix A.1.",
+  ref="DESIGN.md §3 C02, Appendix A.1"),
  "C15": dict(
   text="Solver-decided, bounded: for all pairs of values within the shape bounds (independent shapes and all single-field variants, every leaf symbolic) the real Equal/AssertEqual functions agree with byte equality of the real encodings, and the real sim backend's Sign/Verify (over an ideal hash and signature scheme) accept exactly (same signer, equal state). Not a proof: larger dimensions and longer amounts are outside.",
   note="Trusted: go/ssa lowering, the interpreter (validated per run against native execution on random vectors), z3; idealised SHA-256/ECDSA; representation assumptions listed in the evidence.",
